@@ -4,6 +4,7 @@ CONSTANTS
   DefDir = 493
   MaxEntries = 3
   MaxComps = 3
+  Diverge = FALSE
   NameSet = "small"
 SPECIFICATION Spec
 INVARIANT OutsideUntouched
